@@ -4,6 +4,8 @@ import (
 	"encoding/binary"
 	"fmt"
 	"hash/crc32"
+
+	"github.com/golang/snappy"
 	"runtime"
 	"testing"
 	"time"
@@ -32,7 +34,7 @@ func init() {
 			"non-trivial = the damaged file differs from the original in a byte that the reader looks at (inside header, name, a block header or block data); distinct = hash of (file shape, corruption kinds, offsets class, outcome)",
 		Gen: genC04,
 		Run: runC04,
-		Assumptions: []string{"a corruption that also recomputes the block CRC over changed *data* is indistinguishable from a valid write and is not generated; forged header fields are (the CRC does not cover them)",
+		Assumptions: []string{"a corruption that also recomputes the block CRC over changed *data* is indistinguishable from a valid write as far as the returned records go (the misread oracle is off for it); it is generated for the panic/hang/allocation oracles: blocks with consistent sizes and CRC whose entry stream is cut or carries forged length prefixes",
 			"hang bound: 20 s of real time per reader call on files <= 1 MB; allocation bound: 64 x (file size + uncompressed bytes written) + 16 MiB"},
 		Real: []string{"v2.NewFileReader/LoadIndex/ReadAllBlocks/ScanBlockHeaders/CalculateFragmentation/ReadSwampName", "v2.ParseBlock / Entry.Deserialize / FileHeader.Deserialize", "chronicler V2 Load", "v2 writer open-for-append on a damaged file", "snappy"},
 		Stub: storageStub,
@@ -64,7 +66,7 @@ func genC04(seed uint64, tier string) Case {
 	nc := 1 + r.intn(3)
 	for i := 0; i < nc; i++ {
 		// kind, position selector (per mille of file or index of block), value
-		c.Ops = append(c.Ops, Op{K: "corrupt", A: []int64{int64(r.intn(9)), int64(r.intn(1000)), int64(r.next() & 0xffffffff), int64(r.intn(8))}})
+		c.Ops = append(c.Ops, Op{K: "corrupt", A: []int64{int64(r.intn(10)), int64(r.intn(1000)), int64(r.next() & 0xffffffff), int64(r.intn(8))}})
 	}
 	return c
 }
@@ -229,6 +231,42 @@ func runC04(t *testing.T, c Case) (res Result) {
 					binary.LittleEndian.PutUint32(file[a.off+10:a.off+14], crc)
 				}
 				touched = true
+			}
+			kinds = append(kinds, "swap_or_crcfix")
+		case 9: // a block whose payload was damaged BEFORE it was compressed and checksummed (or a forged file):
+			// sizes and CRC are all consistent, only the entry stream inside is broken - cut in the middle of an
+			// entry, a key-length prefix pointing past the end, a data-length field too large. The reader must
+			// report that as corruption (no panic, no hang, no runaway allocation).
+			if bp.size > 16 && int(bp.off+bp.size) <= len(file) {
+				if payload, err := snappy.Decode(nil, file[bp.off+16:bp.off+bp.size]); err == nil && len(payload) > 8 {
+					at := int(val>>8) % len(payload)
+					switch val % 4 {
+					case 0:
+						payload = payload[:at] // cut mid-entry, the header still counts the cut entry
+					case 1:
+						binary.LittleEndian.PutUint16(payload[1:3], uint16(val>>12)) // first entry: key length
+					case 2:
+						if at+4 <= len(payload) {
+							binary.LittleEndian.PutUint32(payload[at:at+4], uint32(val)) // some length field inside
+						}
+					default:
+						if at+2 <= len(payload) {
+							binary.LittleEndian.PutUint16(payload[at:at+2], uint16(len(payload)-at-int(val%5))) // a key that swallows the block up to its last few bytes
+						}
+					}
+					comp := snappy.Encode(nil, payload)
+					hdr := append([]byte(nil), file[bp.off:bp.off+16]...)
+					binary.LittleEndian.PutUint32(hdr[0:4], uint32(len(comp)))
+					binary.LittleEndian.PutUint32(hdr[4:8], uint32(len(payload)))
+					binary.LittleEndian.PutUint32(hdr[10:14], crc32.ChecksumIEEE(comp))
+					nf := append([]byte(nil), file[:bp.off]...)
+					nf = append(nf, hdr...)
+					nf = append(nf, comp...)
+					nf = append(nf, file[bp.off+bp.size:]...)
+					file = nf
+					blocks = nil // offsets of later blocks moved
+					touched = true
+				}
 			}
 			kinds = append(kinds, "swap_or_crcfix")
 		}
